@@ -99,6 +99,9 @@ def run(rep, tier, seed):
     c01.proof_part(rep, PID, tier)
     npairs = 300 if tier == 'quick' else 6000
     cases = campaign.make_cases(rng, npairs, WEIGHTS)
+    # nested wedges with a common apex (a hole touching its exterior ring, an island touching its hole, in their common
+    # extreme vertex); own generator state, so that the cases above do not depend on this batch
+    cases += campaign.make_cases(random.Random(seed + 7919), max(20, npairs // 10), {'wedge': 1.0}, prefix='w')
     rep.log('%d cases' % len(cases))
     outs = {c.cid: campaign.Outcome(c) for c in cases}
     impl = bc.run_impl(cases)
